@@ -39,18 +39,33 @@ struct CommitBatch {
 	count: u32, // Number of entries in the batch
 	applied: AtomicBool,
 	complete_tx: Mutex<Option<oneshot::Sender<Result<()>>>>,
+	/// The flow-control permit of this commit. It belongs to the queue slot,
+	/// not to the committer: it is given back when the batch leaves the queue.
+	/// A committer whose commit fails returns at once, possibly while its batch
+	/// is still queued behind an older one that is being applied; if the permit
+	/// went back with the committer, the queue could hold more batches than
+	/// there are permits and overflow.
+	permit: Mutex<Option<tokio::sync::OwnedSemaphorePermit>>,
 }
 
 impl CommitBatch {
-	fn new(count: u32) -> (Arc<Self>, oneshot::Receiver<Result<()>>) {
+	fn new(
+		count: u32,
+		permit: tokio::sync::OwnedSemaphorePermit,
+	) -> (Arc<Self>, oneshot::Receiver<Result<()>>) {
 		let (tx, rx) = oneshot::channel();
 		let commit = Arc::new(Self {
 			seq_num: AtomicU64::new(0),
 			count,
 			applied: AtomicBool::new(false),
 			complete_tx: Mutex::new(Some(tx)),
+			permit: Mutex::new(Some(permit)),
 		});
 		(commit, rx)
+	}
+
+	fn release_permit(&self) {
+		self.permit.lock().take();
 	}
 
 	fn set_seq_num(&self, seq: u64) {
@@ -269,11 +284,14 @@ impl CommitPipeline {
 		self.write_stall.check().await?;
 
 		// Acquire permit for flow control
-		let _permit = self.commit_sem.acquire().await.map_err(|_| Error::PipelineStall)?;
+		let permit = Arc::clone(&self.commit_sem)
+			.acquire_owned()
+			.await
+			.map_err(|_| Error::PipelineStall)?;
 
 		#[cfg(surrealkv_verif)]
 		crate::verif::yield_point("commit:permit");
-		let (commit_batch, complete_rx) = CommitBatch::new(batch.count());
+		let (commit_batch, complete_rx) = CommitBatch::new(batch.count(), permit);
 
 		// === CRITICAL SECTION under write_mutex ===
 		//
@@ -463,6 +481,8 @@ impl CommitPipeline {
 					crate::verif::yield_point("publish:before-complete");
 					// Complete this batch
 					batch.complete(Ok(()));
+					// The batch has left the queue: its slot and its permit are free
+					batch.release_permit();
 				}
 				None => {
 					// No more applied batches, done
